@@ -23,6 +23,15 @@ WalkLen(p) == LET RECURSIVE go(_)
 PermWalk == Min({WalkLen(p) : p \in SetToSeqs(ToVisit)})
 
 
-\* evaluated by TLC as a constant expression (config: no behaviour spec needed)
-ASSUME PrintT(<<"PERMWALK", PermWalk>>)
+\* Signature of the known finding KF_PermutationWalk (D10): the advertised hop count is the value of the
+\* permutation walk, that walk over-counts (it exceeds the number of hosts that really have to be compromised,
+\* minComp, found by TLC on the firewall-free twin), and the observed excess of the total over the advertised
+\* bound is explained by that over-count alone (every hop costs at least 1).
+KF_PermutationWalk(minComp, maxScore) ==
+    /\ AdvHops = PermWalk
+    /\ PermWalk > minComp
+    /\ maxScore <= AdvUB + 1000 * (PermWalk - minComp)
+
+VARIABLE dummy
+DummySpec == dummy = 0 /\ [][dummy' = dummy]_dummy
 =============================================================================
